@@ -387,6 +387,15 @@ impl BoundsAnalyzer {
             let Some(bounds) = self.variable_bounds.get(name).copied() else {
                 continue;
             };
+            if bounds.lower > bounds.upper
+                || bounds.lower == f64::INFINITY
+                || bounds.upper == f64::NEG_INFINITY
+            {
+                // Propagation diverged on an infeasible model and the interval
+                // degenerated (e.g. [inf, inf]). Keep the declared domain: the
+                // original constraint rows will report infeasibility at solve time.
+                continue;
+            }
             let tightened_type = match variable.get_type() {
                 VariableType::Boolean => VariableType::Boolean,
                 VariableType::IntegerRange(_, _) => {
@@ -413,15 +422,23 @@ impl BoundsAnalyzer {
     }
 
     /// The rewrites may only rely on ranges that the emitted domain enforces.
-    /// Boolean variables keep their type and integer variables keep or round
-    /// theirs, so their inferred box is reset to what the domain states.
+    /// Boolean variables keep their type, integer variables keep or round
+    /// theirs and degenerate intervals keep the declared type, so in those
+    /// cases the inferred box is reset to what the domain states.
     pub(crate) fn sync_with_domain(&mut self, domain: &IndexMap<String, DomainVariable>) {
         for (name, variable) in domain {
             let variable_type = variable.get_type();
-            if matches!(
-                variable_type,
-                VariableType::Boolean | VariableType::IntegerRange(_, _)
-            ) {
+            let degenerate = self.variable_bounds.get(name).is_some_and(|bounds| {
+                bounds.lower > bounds.upper
+                    || bounds.lower == f64::INFINITY
+                    || bounds.upper == f64::NEG_INFINITY
+            });
+            if degenerate
+                || matches!(
+                    variable_type,
+                    VariableType::Boolean | VariableType::IntegerRange(_, _)
+                )
+            {
                 self.variable_bounds
                     .insert(name.clone(), Bounds::from_variable_type(variable_type));
             }
